@@ -6,11 +6,11 @@ package main
 // signing root (plain crypto/sha256, no fastssz) used as implementation-side monitor.
 
 import (
-	"encoding/json"
 	"bufio"
 	"crypto/sha256"
 	"encoding/binary"
 	"encoding/hex"
+	"encoding/json"
 	"fmt"
 	"math"
 	"math/rand"
@@ -23,12 +23,12 @@ import (
 )
 
 type sszStats struct {
-	Ops, Roots, Baked, Tasks, Shas    int
-	OutcomeHist                       map[string]int
-	Monitors                          []string
-	Samples                           []string
-	DistinctRoots                     int
-	BakedExhaustive                   bool
+	Ops, Roots, Baked, Tasks, Shas int
+	OutcomeHist                    map[string]int
+	Monitors                       []string
+	Samples                        []string
+	DistinctRoots                  int
+	BakedExhaustive                bool
 }
 
 func h2(a, b []byte) []byte {
@@ -168,8 +168,14 @@ func runSszDiff(outDir string, seed int64, tier string) {
 	st.DistinctRoots = len(seenRoots)
 	// all baked positions, exhaustively, and the boundaries
 	seenIdx := map[string]int{}
+	bakedRef := map[int]string{} // position ↦ rendering of the message, recorded before any proposal is expanded
 	for pos := 0; pos < len(fields)+2; pos++ {
 		ob := safeBaked(pos)
+		if strings.HasPrefix(ob, "ok ") {
+			if m, err := requests.ReconstructBakedMessage(pos); err == nil {
+				bakedRef[pos] = rMsgGo(m)
+			}
+		}
 		emit(fmt.Sprintf("baked %d", pos), ob)
 		st.Baked++
 		inList := pos < 18632
@@ -247,6 +253,28 @@ func runSszDiff(outDir string, seed int64, tier string) {
 		ob := safeTasks(ts)
 		if strings.HasPrefix(ob, "panic") {
 			st.Monitors = append(st.Monitors, fmt.Sprintf("C18 never_panics: TasksToMessages panicked on %s", truncate(strings.Join(toks, " "), 200)))
+		}
+		// C03: the expansion is the concatenation, task by task, of the explicit message or of the baked entries of the range —
+		// whatever was expanded before in this process
+		if strings.HasPrefix(ob, "ok ") {
+			var want []string
+			known := true
+			for _, t := range ts {
+				if t.Payload != nil {
+					want = append(want, rMsgGo(requests.MessageToSign{File: t.File, MessageID: t.MessageID, Payload: t.Payload}))
+					continue
+				}
+				for i := t.RangeStart; i < t.RangeEnd; i++ {
+					r, ok := bakedRef[i]
+					if !ok {
+						known = false
+					}
+					want = append(want, r)
+				}
+			}
+			if wantOb := "ok (" + strings.Join(want, ";") + ")"; known && wantOb != ob {
+				st.Monitors = append(st.Monitors, fmt.Sprintf("C03 expansion_exact: TasksToMessages on %s gives %s, task by task it is %s", truncate(strings.Join(toks, " "), 200), truncate(ob, 300), truncate(wantOb, 300)))
+			}
 		}
 		emit(strings.Join(toks, " "), ob)
 		st.Tasks++
